@@ -26,6 +26,18 @@ STATE = {"model_calls": 0, "loss_calls": 0, "sampler_calls": 0, "faults": set(),
          "loss_table": {}, "loss_default": 1.0, "record": None}
 
 
+class StubAbort(BaseException):
+    """a failure that is not an `Exception` subclass (like KeyboardInterrupt / SystemExit raised inside a simulation)"""
+
+    def __init__(self, kind):
+        super().__init__(kind)
+        self.kind = kind
+
+
+def _fault(kind):
+    return StubAbort(kind) if STATE.get("fault_base") else StubFault(kind)
+
+
 class StubFault(Exception):
     def __init__(self, kind):
         super().__init__(kind)
@@ -36,7 +48,7 @@ def stub_model(theta, N, seed):  # noqa: N803
     k = STATE["model_calls"]
     STATE["model_calls"] += 1
     if ("M", k) in STATE["faults"]:
-        raise StubFault("model")
+        raise _fault("model")
     out = np.zeros((N, 1))
     d = len(theta)
     out[:d, 0] = theta
@@ -61,7 +73,7 @@ class StubLoss:
         k = STATE["loss_calls"]
         STATE["loss_calls"] += 1
         if ("L", k) in STATE["faults"]:
-            raise StubFault("loss")
+            raise _fault("loss")
         # the loss must be computed against THE real data: record what is passed in
         STATE.setdefault("real_args", set()).add((real_data.shape, real_data.tobytes()))
         d = STATE["dims"]
@@ -131,7 +143,7 @@ def recording():
         k = STATE["sampler_calls"]
         STATE["sampler_calls"] += 1
         if ("S", k) in STATE["faults"]:
-            raise StubFault("sampler")
+            raise _fault("sampler")
         out = orig(self, search_space, existing_points, existing_losses)
         calls = getattr(self, "_vp_calls", 0)
         prev = rec.setdefault(self._vp_obj, {}).get(calls)
@@ -173,6 +185,8 @@ class Scn:
     agent_opts: tuple = (-1.0, 0.1, 0.0)
     bounds: tuple = ((0.0,), (100.0,))
     precision: tuple = (0.5,)
+    fault_base: bool = False                        # injected failures are BaseException subclasses that are not Exceptions
+    use_folder: str | None = None                   # run in this existing folder instead of a fresh one (a second run in a used folder)
 
 
 class ScriptedAgent:
@@ -288,9 +302,9 @@ def run_real(scn: Scn, model=None):
 
     STATE.update(model_calls=0, loss_calls=0, sampler_calls=0, faults=set(map(tuple, scn.faults)), dims=scn.dims,
                  loss_table={tuple(f2h(x) for x in k): v for k, v in scn.loss_table.items()}, loss_default=scn.loss_default,
-                 loss_fn=scn.loss_fn, loss_seen={}, real_args=set())
+                 loss_fn=scn.loss_fn, loss_seen={}, real_args=set(), fault_base=bool(getattr(scn, "fault_base", False)))
     next_obj = [0]
-    folder = tempfile.mkdtemp(prefix="vpcal") if (scn.folder or any(o[0] in ("K", "R") for o in scn.ops)) else None
+    folder = (scn.use_folder or tempfile.mkdtemp(prefix="vpcal")) if (scn.folder or any(o[0] in ("K", "R") for o in scn.ops)) else None
     lines, info = [], {"returns": [], "exc": [], "lineups": []}
     model = model or stub_model
     orig_get = RLScheduler.get_next_sampler
@@ -359,7 +373,7 @@ def run_real(scn: Scn, model=None):
                         lines.append("hang:calibrate_did_not_return_within_the_watchdog n=? b=?")
                         info["exc"].append("hang")
                         break
-                    except StubFault as e:
+                    except (StubFault, StubAbort) as e:
                         lines.append(f"raise:{e.kind} " + dump(cal, scn))
                         info["exc"].append(e.kind)
                     except Exception as e:  # noqa: BLE001  (an exception of the code under test, reported as an outcome)
